@@ -40,18 +40,18 @@ func (vin) Size() (int, int) { return 135, 25 }
 type vout struct{ io.Writer }
 
 func (vout) Size() (int, int) { return 135, 25 }
-func (vout) IsTerminal() bool  { return false }
+func (vout) IsTerminal() bool { return false }
 
 // environment given to fq and (for $ENV / env) to the reference engine
 var theEnviron = []string{"NO_COLOR=1", "NO_DECODE_PROGRESS=1", "CONFIG_DIR=/config", "VERIF_C11=wrapped"}
 
 type vos struct {
-	args   []string
-	files  vfs
-	stdin  []byte
-	stdout *bytes.Buffer
-	stderr *bytes.Buffer
-	lines  []string // scripted readline input (REPL)
+	args    []string
+	files   vfs
+	stdin   []byte
+	stdout  *bytes.Buffer
+	stderr  *bytes.Buffer
+	lines   []string // scripted readline input (REPL)
 	linePos int
 }
 
